@@ -474,7 +474,8 @@ func Generate(rng *rand.Rand, o Opts) *DAG {
 		} else if rng.IntN(2) == 0 {
 			mt = MTOCIForeignGzip
 		}
-		data := b.randBytes(40)
+		// never-stored content: the prefix keeps it apart from every stored blob (short random contents collide)
+		data := append([]byte("foreign-layer:"), b.randBytes(40)...)
 		return ocispec.Descriptor{MediaType: mt, Digest: digest.FromBytes(data), Size: int64(len(data)), URLs: []string{"https://example.invalid/" + fmt.Sprint(rng.Uint32())}}
 	}
 
@@ -683,7 +684,9 @@ func Generate(rng *rand.Rand, o Opts) *DAG {
 		subject := b.pick(ms)
 		var absent *ocispec.Descriptor
 		if o.AbsentSubjects && rng.IntN(5) == 0 {
-			data := b.randBytes(30)
+			// never-stored content: the prefix keeps it apart from every stored blob (short random
+			// contents collide, and a subject that is a stored non-JSON blob is another shape altogether)
+			data := append([]byte("absent-subject:"), b.randBytes(30)...)
 			absent = &ocispec.Descriptor{MediaType: MTOCIManifest, Digest: digest.FromBytes(data), Size: int64(len(data))}
 			subject = -1
 		}
